@@ -683,6 +683,8 @@ def gen_c13(seed, tier):  # noqa: F811
         op["cfg"].update(max_errors=0, retry=None)
         if registry and rng0.random() < 0.5:
             op["cfg"]["dry_run"] = True
+        if seed % 3 == 0:
+            desc["hold_scope"] = True
     return desc
 
 
@@ -720,11 +722,21 @@ def exec_c13(prop, desc):
                     raise
 
         threads = [prims.Thread(target=one, args=(i,)) for i in range(1, desc["clients"])]
-        for t in threads:
-            t.start()
-        one(0)
-        for t in threads:
-            t.join()
+        if desc.get("hold_scope"):
+            # the caller keeps a scope open on its own Plan (it is still building) while other threads run that
+            # Plan: their runs work on copies, which are independent of the original - nobody waits for the scope
+            with built.plan.scope("held-by-the-caller"):
+                for t in threads:
+                    t.start()
+                for t in threads:
+                    t.join()
+            one(0)
+        else:
+            for t in threads:
+                t.start()
+            one(0)
+            for t in threads:
+                t.join()
         outs.extend(results)
         return results[0][1] if results[0][0] == "ok" else None
 
